@@ -35,6 +35,11 @@ Definition slice_bounds (n : nat) (s e : Z) : nat * nat :=
 Definition pyslice (X : Type) (s e : Z) (l : list X) : list X :=
   let '(s', len) := slice_bounds (length l) s e in firstn len (skipn s' l).
 
+(* a[s:e] with omitted bounds (None) *)
+Definition pyslice_o (X : Type) (s e : option Z) (l : list X) : list X :=
+  pyslice (match s with Some v => v | None => 0%Z end)
+          (match e with Some v => v | None => Z.of_nat (length l) end) l.
+
 (* ---- origin preprocessing, center.py:242-270 ------------------------------ *)
 (* int(x): truncation towards zero *)
 Definition qtrunc (q : Q) : Z := Z.quot (Qnum q) (Zpos (Qden q)).
